@@ -6,7 +6,8 @@ import numpy as np
 
 from simkit import engine_world as W
 from simkit.core import EventLog, Violations, canon, sha, tree_digest
-from simkit.props.C07 import run_engine
+from simkit.core import SutError
+from simkit.props.C07 import failed, run_engine, sut_violation
 
 RUN_CAP_S = 180
 
@@ -211,7 +212,11 @@ def execute(plan: dict) -> dict:
     log = EventLog()
     counters: dict = {}
     ref = W.RefEngine(plan).run()
-    got, _ = run_engine(plan, log)
+    try:
+        got, _ = run_engine(plan, log)
+    except SutError as e:
+        sut_violation(V, e)
+        return failed(V, log)
     if list(ref["events"]) != [tuple(e) for e in got["events"]]:
         V.add("script-events", "api", f"expected {ref['events']} got {got['events']}")
     check_storage(plan, got, ref, V, counters)
@@ -221,7 +226,11 @@ def execute(plan: dict) -> dict:
     if plan.get("chunk2"):
         p2 = dict(plan)
         p2["chunk"] = plan["chunk2"]
-        got2, _ = run_engine(p2)
+        try:
+            got2, _ = run_engine(p2)
+        except SutError as e:
+            sut_violation(V, e)
+            return failed(V, log)
         for part in ("samples", "post_samples"):
             if tree_digest(got[part]) != tree_digest(got2[part]):
                 V.add("chunk-independence", part, f"chunk {plan['chunk']} and chunk {plan['chunk2']} give different {part} for key-ignoring kernels")
